@@ -31,7 +31,7 @@ IMPORT_MODS = ['os', 'sys', 're', 'json', 'math', 'time', 'random', 'string', 's
 
 class Gen(object):
     def __init__(self, rng, allow_return=True, allow_try=True, full_raise=False, max_depth=3,
-                 max_stmts=10, multi_handlers=True, names=None):
+                 max_stmts=10, multi_handlers=True, names=None, exits=False):
         self.rng = rng
         self.site = 0
         self.allow_return = allow_return
@@ -45,6 +45,8 @@ class Gen(object):
         self.budget = max_stmts
         self.mods = list(IMPORT_MODS)
         rng.shuffle(self.mods)
+        self.exits = exits          # C01: break / continue / raise anywhere
+        self.loop_depth = 0
 
     def new(self):
         self.site += 1
@@ -64,7 +66,7 @@ class Gen(object):
                 break
             st = self.stmt(depth, in_finally, no_ret)
             out.append(st)
-            if st[0] == 'return':
+            if st[0] in ('return', 'break', 'continue', 'raise'):
                 break
         return out or [('pass',)]
 
@@ -87,6 +89,13 @@ class Gen(object):
                 return ('expr', self.reads(1, 2))
             if k < 0.30 and self.allow_return and not no_ret and not in_finally:
                 return ('return',)
+            if self.exits and k < 0.42:
+                opts = [('raise', self.rng.randrange(3))]
+                if self.loop_depth > 0:
+                    opts += [('break',), ('continue',), ('break',), ('continue',)]
+                if self.allow_return:
+                    opts.append(('return',))
+                return self.rng.choice(opts)
             forms = ['plain'] * 6 + ['ann', 'walrus', 'tuple', 'chain', 'star', 'def', 'class']
             if self.mods:
                 forms += ['import', 'from']
@@ -104,7 +113,11 @@ class Gen(object):
             return ('if', self.reads(0, 2), self.body(depth + 1, in_finally, no_ret),
                     self.body(depth + 1, in_finally, no_ret) if self.rng.random() < 0.7 else [('pass',)])
         if r < 0.68:
-            return ('while', self.reads(0, 2), self.body(depth + 1, in_finally, no_ret),
+            rd = self.reads(0, 2)
+            self.loop_depth += 1
+            b = self.body(depth + 1, in_finally, no_ret)
+            self.loop_depth -= 1
+            return ('while', rd, b,
                     self.body(depth + 1, in_finally, no_ret, 1, 2) if self.rng.random() < 0.4 else [('pass',)])
         if r < 0.80:
             nb = self.rng.choice([1, 1, 1, 2])
@@ -114,7 +127,11 @@ class Gen(object):
                 while any(b[1] == o[1] for o in bs):
                     b = (b[0], self.rng.choice(self.names))
                 bs.append(b)
-            return ('for', self.reads(0, 1), bs, self.body(depth + 1, in_finally, no_ret),
+            rd = self.reads(0, 1)
+            self.loop_depth += 1
+            b = self.body(depth + 1, in_finally, no_ret)
+            self.loop_depth -= 1
+            return ('for', rd, bs, b,
                     self.body(depth + 1, in_finally, no_ret, 1, 2) if self.rng.random() < 0.4 else [('pass',)])
         if r < 0.86:
             return ('with', self.reads(0, 1), [self.bind()], self.body(depth + 1, in_finally, no_ret))
@@ -122,14 +139,14 @@ class Gen(object):
             return ('expr', self.reads(1, 2))
         # try
         has_final = self.rng.random() < 0.45
-        inner_no_ret = no_ret or has_final
+        inner_no_ret = (no_ret or has_final) and not self.exits
         body = self.body(depth + 1, in_finally, inner_no_ret)
         nh = self.rng.choice([1, 1, 2, 3]) if self.multi_handlers else 1
         if not has_final and self.rng.random() < 0.15:
             nh = max(nh, 1)
         handlers = []
         for i in range(nh):
-            tyreads = self.reads(0, 1) if nh == 1 else []
+            tyreads = self.reads(0, 1) if (nh == 1 and not self.exits) else []
             nm = None
             if self.rng.random() < 0.5:
                 self.hname += 1
@@ -139,7 +156,7 @@ class Gen(object):
                 hb = [('expr', [(self.new(), nm[1])])] + hb
             handlers.append((tyreads, nm, hb))
         orelse = self.body(depth + 1, in_finally, inner_no_ret, 1, 2) if self.rng.random() < 0.4 else [('pass',)]
-        final = self.body(depth + 1, True, True, 1, 2) if has_final else [('pass',)]
+        final = self.body(depth + 1, not self.exits, not self.exits, 1, 2) if has_final else [('pass',)]
         if self.full_raise:
             rf = rl = True
         else:
@@ -189,6 +206,12 @@ def to_coq(n):
         return 'Skip'
     if k == 'return':
         return 'Return'
+    if k == 'break':
+        return '(Exit KBrk)'
+    if k == 'continue':
+        return '(Exit KCont)'
+    if k == 'raise':
+        return '(Exit (KExc %d%%nat))' % n[1]
     if k == 'expr':
         return seq(rd_terms(n[1]))
     if k == 'assign':
@@ -269,6 +292,12 @@ class Renderer(object):
             self.emit(ind, 'pass')
         elif k == 'return':
             self.emit(ind, 'return')
+        elif k == 'break':
+            self.emit(ind, 'break')
+        elif k == 'continue':
+            self.emit(ind, 'continue')
+        elif k == 'raise':
+            self.emit(ind, ('raise _E[%d]()' if ins else 'raise E%d()') % n[1])
         elif k == 'expr':
             self.emit(ind, self.call(n[1]))
         elif k == 'assign':
